@@ -308,6 +308,10 @@ fn main() {
             run_and_judge(prop, tier, seed, &lines, &fixed, ncorpus, outdir);
         }
         "gammainfo" => seeds::gammainfo(),
+        "candsearch" => {
+            // vh candsearch <N> <start> <count> <outfile>
+            seeds::candsearch(args[2].parse().unwrap(), args[3].parse().unwrap(), args[4].parse().unwrap(), &args[5]);
+        }
         "keysearch" => {
             // vh keysearch <N> <start> <count> <outfile>
             seeds::keysearch(args[2].parse().unwrap(), args[3].parse().unwrap(), args[4].parse().unwrap(), &args[5]);
